@@ -45,6 +45,8 @@ use std::ops::{Index, Range};
 use crate::deadline_support::Instant;
 pub use capture::Capture;
 pub use compact::Compact;
+#[cfg(similar_verif)]
+pub use compact::verif_swap;
 pub use hook::{DiffHook, NoFinishHook};
 pub use replace::Replace;
 pub use utils::IdentifyDistinct;
